@@ -2626,6 +2626,15 @@ func (pid *PID) tryPassivation(reason string) bool {
 		return false
 	}
 
+	// the actor may have been stopped (Stop, Kill, parent or system shutdown)
+	// between the passivation manager picking it and this goroutine obtaining
+	// stopLocker: a stopped actor has already run PostStop and must not run it
+	// a second time.
+	if !pid.isStateSet(runningState) {
+		pid.logger.Debugf("actor=%s is offline, maybe stopped already: nothing to passivate", pid.Name())
+		return false
+	}
+
 	pid.unregisterPassivation()
 
 	ctx := context.Background()
